@@ -136,6 +136,7 @@ class World:
         self.ops_issued = 0
         self.stuck = False
         self.ended = False
+        self.n_entering = 0
         self.pre_pause_status: Any = None
 
     # ---- hooks used by generated programs -------------------------------------------------
@@ -145,6 +146,7 @@ class World:
         proc.add_state_event_callback(state_machine.StateEventHook.ENTERING_STATE, self._entering)
 
     def _entering(self, sm: Any, hook: Any, state: Any) -> None:
+        self.n_entering += 1
         self.oracle_hook('entering', state)
 
     def _entered(self, sm: Any, hook: Any, from_state: Any) -> None:
@@ -174,7 +176,7 @@ class World:
         rec: Dict[str, Any] = {
             'i': self.n_choice, 'op': op, 'args': tuple(args), 'origin': origin, 'state': proc.state,
             'live': not proc.has_terminated(), 'paused': proc.paused, 'ret': None, 'raised': None, 'obj': None,
-            'ntrace': len(self.trace), 'nentered': len(self.entered),
+            'ntrace': len(self.trace), 'nentered': self.n_entering,
         }
         self.calls.append(rec)
         ncalls = len(self.calls)
@@ -262,7 +264,7 @@ class World:
             return (('play',), '', self._closing(self._op_thunk(('play',), origin='closing')))
         if 'resume_if_none' in closing and proc.state == ProcessState.WAITING and not any(
                 r['op'] == 'resume' and r['raised'] is None and r['state'] == ProcessState.WAITING
-                and r['nentered'] == len(self.entered) for r in self.calls):
+                and r['nentered'] == self.n_entering for r in self.calls):
             op = ('resume',) + tuple(self.cfg.resume_default)
             return (op, '', self._closing(self._op_thunk(op, origin='closing')))
         if 'resume' in closing and proc.state == ProcessState.WAITING:
